@@ -1,6 +1,6 @@
 (* C01 - interface files parse to a tree that mirrors the source exactly. *)
 From Coq Require Import String Ascii List Bool Arith Lia.
-From Wrap Require Import Base.Str Syntax.Ast Inst.Model Parse.Peg Parse.Build Parse.Spec Parse.RoundTrip Parse.RoundTripModule.
+From Wrap Require Import Base.Str Syntax.Ast Inst.Model Parse.Peg Parse.Build Parse.Spec Parse.RoundTrip Parse.RoundTripModule Parse.RoundTripDec.
 From Wrap Require gen.Grammar.
 Import ListNotations.
 Open Scope string_scope.
@@ -125,3 +125,13 @@ Proof.
                  end ];
     try reflexivity; try discriminate; try (vm_compute; tauto); try (vm_compute; lia); try (vm_compute; intuition discriminate).
 Qed.
+
+(* The domain of the theorem is decidable (wf_fnb, fns_of): print_decls is what the extracted model answers to the
+   check's `printdecls` command, and the check feeds every text it answers to the implementation. *)
+Theorem C01_printed_decls_parse_back : forall ds text,
+  print_decls ds = Some text -> parse_module spec_grammar text = Ok ds.
+Proof. exact printed_decls_parse_back. Qed.
+Print Assumptions C01_printed_decls_parse_back.
+
+Example C01_printed_decls_nonvacuous : print_decls (map decl_of sample_module) = Some (print_module sample_module).
+Proof. vm_compute. reflexivity. Qed.
